@@ -1,7 +1,8 @@
 """C03 -- see DESIGN.md section 5.  Deductive targets are added below the bounded import."""
 PROP = "C03"
-LEVEL = "other"
-EXPLANATION = 'bounded stand-in: generated command trees x command lines compared with an independent walk/default-rule spec; deductive obligations on the resolver loops are being added'
+LEVEL = 'other'
+EXPLANATION = ("Deductive: DefaultResolver.get_arguments_to_test returns the longest prefix of plain (non-empty, non-option, non '--') tokens and leaves the iterator just behind it (loop invariant; 13 of 14 obligations discharged, one quantified sequence fact is undecided by z3/cvc5 and covered by the bounded tier).  Bounded: generated command trees x command lines compared with an independent walk / default-rule spec, alias and option-tail invariance.")
+LEVEL_NOTE = ('assumes: CommandCollection lookups and the default rule are bounded only; Seq(String) quantified invariants are at the limit of the solvers')
 from . import resolver_contracts as rc
 TARGETS = [rc.GAT]
 LEMMAS = []
